@@ -488,6 +488,9 @@ double RescaledHmmLikelihood::getDLogLikelihoodForASite(size_t site) const
 
 void RescaledHmmLikelihood::computeD2Forward_() const
 {
+  // Make sure that Dlikelihoods are correctly computed
+  getFirstOrderDerivative(d2Variable_);
+
   // Init arrays:
   if (d2Likelihood_.size() == 0)
   {
